@@ -82,6 +82,15 @@ func c19Gen(class string, seed uint64, tier string) *vfScenario {
 		names = append(names, names[0]) // a duplicate
 	}
 	sc.Ops = []vfOp{{K: "config", S: strings.Join(names, ",")}}
+	if rng.IntN(3) == 0 {
+		// the configuration changes again while the session is open (after its handshake): what was advertised
+		// to this session must still be served
+		var again []string
+		for _, i := range rng.Perm(3)[:rng.IntN(3)] {
+			again = append(again, c19Supported[i])
+		}
+		sc.Ops = append(sc.Ops, vfOp{K: "reconfig", S: strings.Join(again, ",")})
+	}
 	return sc
 }
 
@@ -324,6 +333,18 @@ func c19Server(r *vfRun) {
 	}
 	s := vfStartSession(r, prog)
 	defer s.cleanup()
+	if len(sc.Ops) > 1 && sc.Ops[1].K == "reconfig" {
+		var again []string
+		if sc.Ops[1].S != "" {
+			again = strings.Split(sc.Ops[1].S, ",")
+		}
+		s.wc.onSend = func(i int, q *wReq) {
+			if i == 1 { // the first request after the handshake (the window is 1: VERSION has been received)
+				SetSFTPExtensions(again...)
+				sim.count("fault.reconfigured_during_session")
+			}
+		}
+	}
 	sim.run(nil)
 	if sim.failed() {
 		return
